@@ -100,12 +100,105 @@ def gen_case(rng):
             "setup": setup, "threads": threads}
 
 
+def _dwrite(start, n, rng):
+    return {"op": "dwrite", "start": start, "n": n, "chunks": rng.choice([1, 1, 2]), "commits": rng.choice(["end", "each"])}
+
+
+def gen_inject_scenario(rng):
+    """one (setup, thread A, thread B) scenario of pairwise independent operations; thread B is fired when
+    thread A reaches a chosen I/O point (every file-system call and delete offset resolver is a point)"""
+    if rng.random() < 0.5:
+        # ---- bare domain database (writers on disjoint regions of ONE channel exist only at this level)
+        nd = rng.randrange(3, 6)
+        doms = [(10 + 20 * i, rng.randrange(5, 11)) for i in range(nd)]
+        setup = [_dwrite(s, n, rng) for s, n in doms]
+        pre = []
+        kind = rng.choice(["del_vs_write", "del_vs_write", "gc_vs_del", "write_vs_del", "del_vs_del", "gc_vs_write"])
+        free_starts = [1] + [s + n + 1 for s, n in doms if n <= 8] + [10 + 20 * nd + 5]
+        if kind in ("gc_vs_del", "gc_vs_write"):
+            # create tombstones first so that GC rewrites files
+            i = rng.randrange(nd - 1)
+            s, n = doms[i]
+            pre = [{"op": "ddelete", "a": s + 1, "b": s + n - 1}]
+        i = rng.randrange(nd)
+        j = rng.randrange(i, nd)
+        a = doms[i][0] + rng.randrange(0, doms[i][1])
+        b = max(a, doms[j][0] + rng.randrange(0, doms[j][1] + 1))
+        dele = {"op": "ddelete", "a": a, "b": b}
+        ws = rng.choice([f for f in free_starts if not (a - 4 <= f < b)] or [1])
+        wr = _dwrite(ws, rng.randrange(1, 4), rng)
+        if kind == "del_vs_write":
+            A, B = [dele], [wr]
+        elif kind == "write_vs_del":
+            A, B = [wr], [dele]
+        elif kind == "gc_vs_del":
+            k = rng.randrange(nd)
+            s, n = doms[k]
+            x = s + rng.randrange(1, max(2, n - 1))
+            A, B = [{"op": "dgc"}], [{"op": "ddelete", "a": x, "b": min(x + rng.randrange(1, 4), s + n)}]
+        elif kind == "gc_vs_write":
+            A, B = [{"op": "dgc"}], [wr]
+        else:
+            s2, n2 = doms[-1]
+            A, B = [dele], [{"op": "ddelete", "a": s2 + 1, "b": s2 + 3}] if j < nd - 1 else [{"op": "dread"}]
+        return {"mode": "inject", "level": "domain", "persist": rng.choice(["always", "lazy"]), "groups": 0,
+                "filecap": rng.choice([0, 0, 64]), "procs": 4, "gc": False, "setup": setup + pre, "threads": [A, B], "kind": kind}
+    # ---- cesium level
+    setup = []
+    doms = []
+    for i in range(rng.randrange(2, 5)):
+        start, n, step = 100 + 1000 * i, rng.randrange(4, 11), rng.choice([1, 5, 10])
+        setup.append({"op": "write", "g": 1, "start": start, "n": n, "step": step, "chunks": 1, "commits": "end"})
+        doms.append((start, n, step))
+    kind = rng.choice(["gc_vs_del", "gc_vs_del", "gc_vs_del", "del_vs_write", "write_vs_del", "del_vs_del", "gc_vs_write", "del_vs_gc"])
+    def rdel():
+        s0, n, step = rng.choice(doms)
+        pts = [s0 + i * step for i in range(n)]
+        a = rng.choice(pts) + rng.choice([0, 1])
+        b = max(a + 1, rng.choice(pts + [pts[-1] + 1]))
+        return {"op": "delete", "g": 1, "a": a, "b": b, "index": rng.random() < 0.25}
+    wr = {"op": "write", "g": 1, "start": 100000, "n": rng.randrange(1, 6), "step": rng.choice([1, 10]),
+          "chunks": rng.choice([1, 2]), "commits": rng.choice(["each", "end", "auto"])}
+    pre = [rdel()] if kind in ("gc_vs_del", "gc_vs_write", "del_vs_gc") else []
+    A, B = {"gc_vs_del": ([{"op": "gc"}], [rdel()]), "del_vs_write": ([rdel()], [wr]), "write_vs_del": ([wr], [rdel()]),
+            "del_vs_del": ([rdel()], [rdel()]), "gc_vs_write": ([{"op": "gc"}], [wr]), "del_vs_gc": ([rdel()], [{"op": "gc"}])}[kind]
+    return {"mode": "inject", "level": "cesium", "persist": rng.choice(["always", "lazy"]), "groups": 1,
+            "filecap": rng.choice([0, 0, 160]), "procs": 4, "gc": False, "setup": setup + pre, "threads": [A, B], "kind": kind}
+
+
+def gen_inject_cases(rng, nscen, per):
+    out = []
+    for _ in range(nscen):
+        sc = gen_inject_scenario(rng)
+        base = per
+        if sc["kind"].startswith("gc_"):
+            per = base * 5 // 2      # a GC pass has ~45 I/O points at the cesium level
+        off = rng.random() / per
+        for j in range(per):
+            c = json.loads(json.dumps(sc))
+            c["kfrac"] = min(0.999, j / per + off)
+            out.append(c)
+        per = base
+    return out
+
+
+INJECT = {"quick": (40, 8), "thorough": (500, 20)}
+
+
 def gen_cases(rng, tier, n):
-    return [gen_case(rng) for _ in range(n)]
+    free = [gen_case(rng) for _ in range(n)]
+    ns, per = INJECT.get(tier, (24, 8))
+    if n < COUNTS.get(tier, n):      # scaled-down batches (search phase)
+        ns = max(4, ns * n // COUNTS[tier])
+    return free + gen_inject_cases(rng, ns, per)
 
 
 def c_action(o):
     k = o["op"]
+    if k == "dwrite":
+        return "PWrite 5000 %s" % clist([cZ(o["start"] + i) for i in range(o["n"])])
+    if k == "ddelete":
+        return "PDelete 5000 %s %s" % (cZ(o["a"]), cZ(o["b"]))
     if k == "write":
         st = [o["start"] + i * o["step"] for i in range(o["n"])]
         return "Write %s %s" % (cZ(o["g"]), clist([cZ(s) for s in st]))
@@ -135,8 +228,6 @@ def c_obs(chans):
 def run_bad(o):
     if o.get("stall") or o.get("panic") or o.get("err"):
         return True
-    if any(s != "ok" for s in (o.get("setup") or [])):
-        return True
     for part in ("mem", "reopen"):
         if o.get(part) is None:
             return True
@@ -159,7 +250,8 @@ def to_coq(case, r):
     #  the property asks for SOME serial order; only a difference in readable content is flagged)
     return "(Case %s %s %s %s %s %s %s %s)" % (
         clist([cZ(g) for g in range(1, case["groups"] + 1)]),
-        clist([c_action(o) for o in case["setup"]]),
+        clist((["Create 5000"] if case.get("level") == "domain" else []) +
+              [c_action(o) for o, res in zip(case["setup"], conc.get("setup") or []) if res == "ok"]),
         clist(threads),
         c_obs(conc.get("mem")), c_obs(conc.get("reopen")), c_obs(ser.get("mem")), c_obs(ser.get("reopen")),
         cbool(bad))
@@ -179,6 +271,8 @@ def nontrivial(case, r):
 
 
 def histogram(case, r):
+    if case.get("mode") == "inject":
+        return ["inject:%s:%s" % (case["level"], case.get("kind")), "inject_points=%s" % r.get("points")]
     ks = ["procs=%d" % case["procs"], "persist=" + case["persist"], "gc=%s" % case["gc"],
           "filecap=%d" % case["filecap"], "threads=%d" % len(case["threads"])]
     outs = r["conc"].get("outcomes") or []
@@ -191,6 +285,12 @@ def histogram(case, r):
 
 def neighbours(case, rng):
     out = []
+    if case.get("mode") == "inject":
+        for j in range(24):
+            c = json.loads(json.dumps(case))
+            c["kfrac"] = j / 24.0
+            out.append(c)
+        return out
     for p in (1, 2, 8):
         c = json.loads(json.dumps(case))
         c["procs"] = p
